@@ -731,9 +731,10 @@ theorem initAll_step (env : Env) (hq : Quiet env) (i p : Nat) (is : List Nat) : 
   | cons j is ih =>
     intro σ evs
     simp only [initAll]
+    have h2 := (call_step env hq i p σ j .write).trans (call_step env hq i p (call env σ j .write).σ j .init)
     split
-    · exact call_step env hq i p σ j .init
-    · exact (call_step env hq i p σ j .init).trans (ih _ _)
+    · exact h2
+    · exact h2.trans (ih _ _)
 
 theorem readAll_step (env : Env) (hq : Quiet env) (i p : Nat) (es : List Entry) : ∀ σ evs,
     Step i p σ (readAll env es σ evs).σ := by
@@ -755,10 +756,19 @@ theorem waitEvent_step (env : Env) (hq : Quiet env) (i p : Nat) (σ : PollState)
     rw [a, b]; exact h
   · rw [waitEvent_quiet env hq]
 
-theorem prologue_step (c : Consts) (env : Env) (hq : Quiet env) (i p : Nat) (σ : PollState) :
-    Step i p σ (prologue c env σ).σ := by
+theorem lateAll_step (env : Env) (hq : Quiet env) (i p : Nat) (is : List Nat) : ∀ σ evs,
+    Step i p σ (lateAll env is σ evs).σ := by
+  induction is with
+  | nil => intro σ evs; exact Step.refl i p σ
+  | cons j is ih =>
+    intro σ evs
+    simp only [lateAll]
+    exact (call_step env hq i p σ j .write).trans (ih _ _)
+
+theorem startupRound_step (c : Consts) (env : Env) (hq : Quiet env) (i p : Nat) (σ : PollState) :
+    Step i p σ (startupRound c env σ).σ := by
   have h1 := initAll_step env hq i p (List.range σ.mods.length) σ []
-  unfold prologue
+  unfold startupRound
   simp only
   split
   · exact h1.trans (waitEvent_step env hq i p _ _)
@@ -767,6 +777,11 @@ theorem prologue_step (c : Consts) (env : Env) (hq : Quiet env) (i p : Nat) (σ 
     split
     · exact (h1.trans h2).trans (waitEvent_step env hq i p _ _)
     · exact h1.trans h2
+
+theorem prologue_step (c : Consts) (env : Env) (hq : Quiet env) (i p : Nat) (σ : PollState) :
+    Step i p σ (prologue c env σ).σ := by
+  unfold prologue
+  exact (startupRound_step c env hq i p σ).trans (lateAll_step env hq i p _ _ _)
 
 theorem run_σ_indep (c : Consts) (env : Env) (k : Nat) : ∀ (σ : PollState) (evs : List Event),
     (run c env k σ evs).σ = (run c env k σ []).σ := by
